@@ -8,6 +8,14 @@ pub fn silence_panics() {
     std::panic::set_hook(Box::new(|_| {}));
 }
 
+/// A matrix with the given row-major data and shape: a valid 1 x 1 object whose three public fields are then assigned (the abstract
+/// state is exactly these fields; a struct literal would stop compiling as soon as the type gains a private field).
+pub fn mk(data: compute::prelude::Vector, r: usize, c: usize) -> compute::prelude::Matrix {
+    let mut m = compute::prelude::Matrix::new(vec![0.0], 1, 1);
+    m.data = data; m.nrows = r; m.ncols = c;
+    m
+}
+
 /// Run a call of the library; a panic is data, never a harness failure.
 pub fn guard<T, F: FnOnce() -> T>(f: F) -> Option<T> {
     catch_unwind(AssertUnwindSafe(f)).ok()
